@@ -131,8 +131,180 @@ def typed_faults(g):
             yield "typed:%s:%s" % (kind, name), R.encode(lm), cname
 
 
+# ------------------------------------------------------------------------------------------------ part B: live node
+
+DESYNC = {"garbage", "short-header-tail", "truncated-then-valid", "valid-then-garbage", "huge-declared-length"}
+NODE_STATES = ["server-awaiting-cer", "client-awaiting-cea", "open-idle", "open-with-traffic", "closing"]
+
+
+def malformed_inputs(rng):
+    """[(class, bytes)] - bytes that may arrive on a live connection"""
+    from bvm import node as N
+    P = N.PEER
+    ok_dwr = R.encode(N.dwr(hbh=1, e2e=1))
+    out = [
+        ("garbage", bytes(rng.randrange(256) for _ in range(rng.choice([1, 3, 19, 20, 21, 64, 300])))),
+        ("message-length-0", b"\x01\x00\x00\x00" + bytes(16)),
+        ("message-length-4", b"\x01\x00\x00\x04" + bytes(16)),
+        ("short-header-tail", ok_dwr + b"\x01\x00\x00"),
+        ("avp-length-overrun", R.encode(N.dwr())[:25] + b"\xff\xff\xff" + R.encode(N.dwr())[28:]),
+        ("avp-length-0", R.encode(N.dwr())[:25] + b"\x00\x00\x00" + R.encode(N.dwr())[28:]),
+        ("u32-width-5", R.encode(R.LMsg(1, 0x80, 280, 0, 5, 5, N.origin(*P) + [N.avp(278, b"\x00\x00\x00\x00\x01")]))),
+        ("unknown-enumerator", R.encode(R.LMsg(1, 0x80, 282, 0, 6, 6, N.origin(*P) + [N.avp(273, N.u32(77))]))),
+        ("bad-address-family-width", R.encode(R.LMsg(1, 0x80, 257, 0, 7, 7, N.origin(*P) + [N.avp(257, b"\x00\x01\x7f"), N.avp(266, N.u32(0)), N.avp(269, b"x", flags=0)]))),
+        ("odd-address-family", R.encode(R.LMsg(1, 0x80, 257, 0, 7, 7, N.origin(*P) + [N.avp(257, b"\x00\x09ab"), N.avp(266, N.u32(0)), N.avp(269, b"x", flags=0)]))),
+        ("invalid-utf8-origin-host-dwr", R.encode(R.LMsg(1, 0x80, 280, 0, 8, 8, [N.avp(264, b"\xff\xfe\xfd"), N.avp(296, P[1].encode())]))),
+        ("invalid-utf8-origin-realm-cer", R.encode(N.cer(realm="x")).replace(b"\x00\x00\x01\x28\x40\x00\x00\x09x", b"\x00\x00\x01\x28\x40\x00\x00\x09\xff")),
+        ("invalid-utf8-origin-host-cea", R.encode(R.LMsg(1, 0, 257, 0, 9, 9, [N.avp(268, N.u32(2001)), N.avp(264, b"\xc3\x28"), N.avp(296, P[1].encode())]))),
+        ("grouped-missing-mandatory", R.encode(R.LMsg(1, 0xc0, 316, 16777251, 10, 10, N.origin(*P) + [N.avp(260, b"")]))),
+        ("misaddressed-request", R.encode(N.app_request(11, dest_host="someone.else"))),
+        ("invalid-uri", R.encode(R.LMsg(1, 0x40, 316, 16777251, 12, 12, N.origin(*P) + [N.avp(292, b"http://nope")]))),
+        ("nested-bad-member", R.encode(R.LMsg(1, 0xc0, 316, 16777251, 13, 13, N.origin(*P) + [N.avp(297, R.encode_avp(N.avp(266, b"\x01")))]))),
+        ("truncated-then-valid", R.encode(N.app_request(14))[:30]),
+        ("valid-then-garbage", ok_dwr + bytes(rng.randrange(256) for _ in range(23))),
+        ("huge-declared-length", b"\x01\xff\xff\xfc\x80\x00\x01\x18" + bytes(40)),
+    ]
+    return out
+
+
+def node_case(acc, case):
+    from bvm import node as N, scen, vsched
+    from bromelia.base import DiameterMessage
+    rng = random.Random(case["seed"])
+    st = case["state"]
+    role = "server" if st == "server-awaiting-cer" else ("client" if st == "client-awaiting-cea" else case["role"])
+    sc = N.Scenario(seed=case["seed"], strategy=case["strategy"], p=case.get("p", 0.1), role=role, apps=[16777251],
+                    lines=case["strategy"] != "rr", max_steps=500_000, wall_s=90)
+    inputs = dict(malformed_inputs(rng))
+    data = inputs[case["input"]]
+    wit = {"case": case, "bytes": data.hex()[:400]}
+    with sc:
+        scen.slow_ticker(0.001)
+        s = sc.sched
+        try:
+            if role == "client":
+                sc.listen()
+            if st in ("server-awaiting-cer", "client-awaiting-cea"):
+                sc.start_node()
+                if not sc.connect_transport():
+                    acc.inconclusive.append("transport set-up failed (%r)" % (case,))
+                    return
+                if role == "client":
+                    s.run_until(lambda: sc._have_emitted(1), 20, "cer")
+                    cer = sc.read_emitted()[0]
+            else:
+                if not sc.open():
+                    acc.inconclusive.append("node did not open (%r)" % (case,))
+                    return
+                sc.read_emitted()
+                if st == "open-with-traffic":
+                    sc.inject(R.encode(N.app_request(500, dest_realm=N.LOCAL[1])) + R.encode(N.dwr(hbh=501, e2e=501)))
+                    big = DiameterMessage.load(R.encode(N.app_request(556, size=2000, host=N.LOCAL[0], realm=N.LOCAL[1], dest_realm=N.PEER[1])))[0]
+                    sc.node.send_message(big)
+                if st == "closing":
+                    sc.node.close()
+                    s.run_until(lambda: sc.state() == "Closing", 5, "closing")
+            # ---- the malformed bytes arrive (sometimes fragmented)
+            chunks = [rng.randrange(1, max(2, len(data)))] if (len(data) > 2 and rng.random() < 0.4) else None
+            sc.inject(data, chunks=chunks)
+            s.run_until(lambda: not sc.node_sock.rx, 3.0, "consumed")
+            s.run_until(lambda: False, 0.05, "react")
+            # let a forced close (4 s linger) finish
+            s.run_until(lambda: sc.state() == "Closed" and not s.live_tasks(), 6.0, "maybe-closing")
+            acc.counters["node_scenarios"] += 1
+            dead_owner = [l.name for l in s.locks if l.owner is not None and l.owner.done]
+            state = sc.state()
+            live = [t.name for t in s.live_tasks()]
+            wit.update({"state": state, "deaths": s.deaths, "live_tasks": live, "locks_owned_by_finished_tasks": dead_owner,
+                        "schedule": s.schedule_hash(), "choices": s.choices[:2000]})
+            tag = "%s@%s" % (case["input"], st)
+            if dead_owner:
+                d = s.deaths[0] if s.deaths else {"task": "?", "type": "?", "exc": "?", "traceback": ""}
+                acc.violation("lock-left-held-by-dead-task:%s:%s" % (d["task"].replace("client_", "").replace("server_", ""), d["type"]),
+                              "after %s task %s died with %s holding %s: %s" % (tag, d["task"], d["exc"], dead_owner, d["traceback"][-300:]), wit)
+                return
+            cleanly_closed = state == "Closed" and not live and not sc.net.open_sockets()
+            if s.deaths and not cleanly_closed:
+                d = s.deaths[0]
+                acc.violation("worker-died-connection-not-closed:%s:%s" % (d["task"].replace("client_", "").replace("server_", ""), d["type"]),
+                              "after %s task %s died with %s and the connection was not closed cleanly (state %s, live %s): %s" % (
+                                  tag, d["task"], d["exc"], state, live, d["traceback"][-300:]), wit)
+                return
+            if cleanly_closed:
+                acc.counters["closed_cleanly"] += 1
+            elif state in ("I-Open", "R-Open") and case["input"] in DESYNC:
+                # the byte stream is out of frame for good (the bytes that follow belong, by the Message Length the peer
+                # declared, to the unfinished message): local API calls must return and the node must still tear down
+                done = []
+                msg = DiameterMessage.load(R.encode(N.app_request(777, host=N.LOCAL[0], realm=N.LOCAL[1], dest_realm=N.PEER[1])))[0]
+                s.spawn("api-caller", lambda: (sc.node.send_message(msg), done.append(1)))
+                if not s.run_until(lambda: bool(done), 5.0, "send_message-returns"):
+                    acc.violation("api-call-blocked-after-malformed-input:%s" % case["input"], "send_message() did not return after %s" % tag, dict(wit, blocked=s.blocked_report()))
+                    return
+                sc.node.close()
+                s.run_until(lambda: False, 0.05, "dpr-goes-out")
+                sc.peer_sock.close()
+                if not s.run_until(lambda: sc.state() == "Closed" and not [t for t in s.live_tasks() if t.name != "api-caller"], 30.0, "teardown"):
+                    acc.violation("teardown-does-not-complete-after-malformed-input:%s@%s" % (case["input"], st), "state %s tasks %s" % (sc.state(), s.blocked_report()), wit)
+                    return
+                acc.counters["stayed_responsive"] += 1
+            elif state in ("I-Open", "R-Open"):
+                # responsiveness: DWR answered, send_message returns, close() returns and Closed is reached
+                sc.read_emitted()
+                sc.inject(R.encode(N.dwr(hbh=4242, e2e=4243)))
+                ok = s.run_until(lambda: any(N.name_of(m) == "DWA" and m.hbh == 4242 for m in (sc.read_emitted() or sc.emitted_msgs[-6:])), 5.0, "probe")
+                if not any(N.name_of(m) == "DWA" and m.hbh == 4242 for m in sc.emitted_msgs):
+                    acc.violation("node-unresponsive-after-malformed-input:%s" % case["input"], "valid DWR not answered after %s (state %s, tasks %s)" % (
+                        tag, state, s.blocked_report()), wit)
+                    return
+                done = []
+                msg = DiameterMessage.load(R.encode(N.app_request(777, host=N.LOCAL[0], realm=N.LOCAL[1], dest_realm=N.PEER[1])))[0]
+                s.spawn("api-caller", lambda: (sc.node.send_message(msg), done.append(1)))
+                if not s.run_until(lambda: bool(done), 5.0, "send_message-returns"):
+                    acc.violation("api-call-blocked-after-malformed-input:%s" % case["input"], "send_message() did not return after %s" % tag, dict(wit, blocked=s.blocked_report()))
+                    return
+                sc.node.close()
+                s.run_until(lambda: any(N.name_of(m) == "DPR" for m in (sc.read_emitted() or sc.emitted_msgs[-8:])), 10.0, "dpr")
+                d = [m for m in sc.emitted_msgs if N.name_of(m) == "DPR"]
+                if d:
+                    sc.inject(R.encode(N.dpa(hbh=d[-1].hbh, e2e=d[-1].e2e)))
+                if not s.run_until(lambda: sc.state() == "Closed" and not [t for t in s.live_tasks() if t.name != "api-caller"], 30.0, "close"):
+                    acc.violation("close-does-not-complete-after-malformed-input:%s" % case["input"], "state %s tasks %s" % (sc.state(), s.blocked_report()), wit)
+                    return
+                acc.counters["stayed_responsive"] += 1
+            else:
+                # not open (awaiting CE / closing): the node must at least still be able to finish: peer disconnect -> Closed
+                sc.peer_sock.close()
+                if not s.run_until(lambda: sc.state() == "Closed" and not s.live_tasks(), 30.0, "teardown"):
+                    if s.deaths:
+                        d = s.deaths[0]
+                        acc.violation("worker-died-connection-not-closed:%s:%s" % (d["task"].replace("client_", "").replace("server_", ""), d["type"]),
+                                      "after %s: %s" % (tag, d["traceback"][-300:]), wit)
+                    else:
+                        acc.violation("teardown-does-not-complete-after-malformed-input:%s@%s" % (case["input"], st), "state %s tasks %s" % (sc.state(), s.blocked_report()), wit)
+                    return
+                acc.counters["torn_down"] += 1
+        except vsched.DeadlockError as ex:
+            acc.violation("deadlock-after-malformed-input:%s" % case["input"], "deadlock: %s" % ex, dict(wit, stacks=sc.sched.stacks()))
+        except N.NonTerminatingDecode as ex:
+            acc.violation("decoder-non-terminating", str(ex), wit)
+        except vsched.WallClock as ex:
+            acc.inconclusive.append("%s (case %r)" % (ex, case))
+        except vsched.StepBudget as ex:
+            acc.violation("spin-after-malformed-input:%s" % case["input"], "%s; tasks %s" % (ex, sc.sched.blocked_report()), wit)
+        cov = sc.coverage()
+    acc.evaluations += 1
+    acc.sigs.add(harness.sig_hash("node/%s/%s/%s" % (case["input"], st, cov["schedule"])))
+    acc.counters["node_steps"] += cov["steps"]
+
+
 def run_batch(b):
     acc = harness.Acc()
+    if b["kind"] == "node":
+        for case in b["cases"]:
+            node_case(acc, case)
+        acc.sample({"node_case": b["cases"][0]})
+        return acc
     g = Gen(b["seed"])
     guard = DecoderGuard().install()
     r = g.rng
@@ -183,13 +355,25 @@ def main(tier, seed):
     else:
         for field, msg in (("msg", 0), ("avp", 1)):
             batches.append({"kind": "sweep24", "field": field, "msg": msg, "lo": 0, "hi": 3000, "corpus_seed": seed, "seed": seed})
+    rng = random.Random(seed)
+    names = [n for n, _ in malformed_inputs(random.Random(0))]
+    ncases = []
+    for st in NODE_STATES:
+        for inp in names:
+            for rep in range(1 if q else 12):
+                ncases.append({"seed": seed * 4099 + len(ncases), "state": st, "input": inp, "role": rng.choice(["client", "server"]),
+                               "strategy": "rr" if rep == 0 else "rw", "p": rng.choice([0.02, 0.1, 0.3])})
+    rng.shuffle(ncases)
+    nb = 12 if q else 48
+    for i in range(nb):
+        batches.append({"kind": "node", "cases": ncases[i::nb]})
     acc = harness.run_workers("checks.c03_malformed", "run_batch", batches, 3000)
     return harness.finish(PROP, tier, seed, "fault_enumeration", acc, RULE,
-                          ["decoder part only in this module; step bound 4*len+64 loop iterations per decode call (both load loops)",
+                          ["part A (decoder): step bound 4*len+64 loop iterations per decode call (both load loops); part B (live node): malformed bytes x connection states under the deterministic scheduler, judged by lock-owner, clean-close and responsiveness monitors",
                            "every library error derives from BaseException and lives in bromelia.exceptions",
                            "memory growth is bounded by the iteration bound plus RLIMIT_AS on the worker"],
                           t0, extra_cov={"sweep24_exhaustive": not q},
-                          require_counters=("decodes", "library_errors", "guard_armed"))
+                          require_counters=("decodes", "library_errors", "guard_armed", "node_scenarios", "stayed_responsive"))
 
 
 def replay(w):
